@@ -2,8 +2,9 @@
  * token is not '(' (the list layer is c20_list.c).
  *
  * Input: an object of EXACTLY LEN octets (LEN is enumerated by the spec),
- * every octet arbitrary (all 256 values), start position i in 0..LEN for the
- * token call. Oracle: the reference lexer of c20_common.h.
+ * every octet arbitrary (all 256 values), start position i in 0..LEN.
+ * OP (compile-time, enumerated by the spec): 0 = sx_parse_token(s, LEN, i),
+ * 1 = sx_parse(s, LEN, i). Oracle: the reference lexer of c20_common.h.
  *
  * Property clauses decided here (for the stated LEN):
  *  - atoms: decimal / #x hexadecimal (either letter case) integers and
@@ -18,10 +19,13 @@
  */
 #include "c20_common.h"
 
+#ifndef OP
+#define OP 0
+#endif
+
 struct vp_in {
     char s[LEN ? LEN : 1];
     uint8_t i;    /* start position of the token call */
-    uint8_t op;   /* 0: sx_parse_token(s, LEN, i), 1: sx_parse(s, LEN, i) */
     uint8_t junk; /* content of fresh malloc() memory */
 };
 VP_DECLARE_INPUT();
@@ -59,7 +63,6 @@ void
 harness(void)
 {
     VP_INPUT(in);
-    VP_ASSUME(in.op <= 1);
     VP_ASSUME(in.i <= LEN);
     vp_junk = in.junk;
 
@@ -69,14 +72,17 @@ harness(void)
     const struct ref_tok t = ref_token(s, n, i);
 
     /* the list layer has its own harness */
-    if (in.op == 1)
+    if (OP == 1)
         VP_ASSUME(t.kind != R_OPEN);
 
     struct sx_parse_result r;
-    if (in.op == 0)
-        r = sx_parse_token(s, n, i);
-    else
-        r = sx_parse(s, n, i);
+    /* OP is a compile-time parameter of the instance (a symbolic selector would
+     * make both call trees part of every query: measured 5x the variables) */
+#if OP == 0
+    r = sx_parse_token(s, n, i);
+#else
+    r = sx_parse(s, n, i);
+#endif
 
     /* ---- in all cases ---- */
     VP_ASSERT(!(c20_is_error(r.status) && r.status != SXS_FOUND_LIST) || r.node == NULL,
@@ -92,61 +98,61 @@ harness(void)
         check_atom(r.node, s, &t);
         VP_ASSERT(r.position == t.end, "C20.atom.position-just-past");
 #if LEN >= 3
-        VP_WITNESS(in.op == 0 && t.kind == R_INT && t.hex_upper && t.end == LEN && i == 0,
-                   "C20.token.hex-upper.reach");
+        VP_WITNESS(t.kind == R_INT && t.hex_upper && t.end == LEN && i == 0,
+                   "C20.hex-upper.reach");
 #endif
 #if LEN >= 2
-        VP_WITNESS(in.op == 0 && t.kind == R_INT && !t.hex_upper && t.value == 9 && t.end < LEN,
-                   "C20.token.dec-delimited.reach");
+        VP_WITNESS(t.kind == R_INT && !t.hex_upper && t.value == 9 && t.end < LEN,
+                   "C20.dec-delimited.reach");
 #endif
 #if LEN >= 1
-        VP_WITNESS(in.op == 0 && t.kind == R_SYM && t.end == LEN && t.start == 0,
-                   "C20.token.sym-to-end.reach");
+        VP_WITNESS(t.kind == R_SYM && t.end == LEN && t.start == 0,
+                   "C20.sym-to-end.reach");
 #endif
 #if LEN >= 3
-        VP_WITNESS(in.op == 1 && t.kind == R_SYM && t.start > 0 && t.end < LEN,
-                   "C20.parse.sym-after-ws.reach");
+        VP_WITNESS(t.kind == R_SYM && t.start > 0 && t.end < LEN,
+                   "C20.sym-after-ws.reach");
 #endif
 #if LEN >= 1
-        VP_WITNESS(in.op == 1 && t.kind == R_INT && t.end == LEN, "C20.parse.int-to-end.reach");
+        VP_WITNESS(t.kind == R_INT && t.end == LEN, "C20.int-to-end.reach");
 #endif
         break;
     case R_BAD:
         VP_ASSERT(c20_is_error(r.status) && r.status != SXS_FOUND_LIST, "C20.bad-token-is-error");
         VP_ASSERT(r.node == NULL, "C20.bad-token-no-node");
 #if LEN >= 1
-        VP_WITNESS(in.op == 0 && s[t.start] == '#', "C20.token.bad-hash.reach");
+        VP_WITNESS(s[t.start] == '#', "C20.bad-hash.reach");
 #endif
 #if LEN >= 2
-        VP_WITNESS(in.op == 1 && ref_isdigit(s[t.start]), "C20.parse.broken-int.reach");
+        VP_WITNESS(ref_isdigit(s[t.start]), "C20.broken-int.reach");
 #endif
 #if LEN >= 2
-        VP_WITNESS(in.op == 1 && ref_issyminit(s[t.start]), "C20.parse.broken-sym.reach");
+        VP_WITNESS(ref_issyminit(s[t.start]), "C20.broken-sym.reach");
 #endif
         break;
     case R_BLANK:
         VP_ASSERT(r.node == NULL, "C20.blank-no-node");
-        if (in.op == 1)
+        if (OP == 1)
             VP_ASSERT(c20_is_error(r.status), "C20.parse.blank-is-error");
-        VP_WITNESS(in.op == 1 && i == 0, "C20.parse.blank.reach");
+        VP_WITNESS(i == 0, "C20.blank.reach");
 #if LEN >= 1
-        VP_WITNESS(in.op == 1 && i == 0 && LEN > 0, "C20.parse.blank-nonempty.reach");
+        VP_WITNESS(i == 0 && LEN > 0, "C20.blank-nonempty.reach");
 #endif
         break;
     case R_OPEN: /* token call only */
         VP_ASSERT(r.status == SXS_FOUND_LIST, "C20.token.open-announces-list");
         VP_ASSERT(r.node == NULL, "C20.token.open-no-node");
         VP_ASSERT(r.position == t.end, "C20.token.open-position");
-#if LEN >= 2
+#if LEN >= 2 && OP == 0
         VP_WITNESS(t.start > 0, "C20.token.open.reach");
 #endif
         break;
     case R_CLOSE:
-        if (in.op == 1) {
+        if (OP == 1) {
             /* a stray ')' is not a complete expression */
             VP_ASSERT(c20_is_error(r.status), "C20.parse.stray-close-is-error");
             VP_ASSERT(r.node == NULL, "C20.parse.stray-close-no-node");
-#if LEN >= 1
+#if LEN >= 1 && OP == 1
             VP_WITNESS(true, "C20.parse.stray-close.reach");
 #endif
         } else {
